@@ -149,6 +149,7 @@ def run(ctx):
         except Exception as e:
             ctx.violation("generated-schema-rejected:%s" % type(e).__name__, {"schema_sdl": case.sdl}, str(e)[:300])
             continue
+        earlier = []
         for ri in range(5):
             doc, text, op, variables = exec_mon.gen_request(rng, case)
             todo = variants(rng, case, doc, text, op, variables)
@@ -222,6 +223,50 @@ def run(ctx):
                         else:
                             ctx.count("extensions_passed_through", got_ext)
                 ctx.sample(stage, {"document": vtext[:200], "variables": vvars, "response": json.dumps(resp, default=repr)[:300]})
+                # history: a response is a value. Rendering a result again after later requests were served (by the same
+                # schema, resolvers and - shared - error objects) has to give what it gave at first
+                try:
+                    earlier.append((result, json.dumps(resp, sort_keys=True, default=repr), witness))
+                except Exception:
+                    pass
+                if stage == "field" and isinstance(request, str) and comparable and rng.random() < 0.6:
+                    # the same operation once more from another document: every position moves down two lines, the
+                    # failing sites (and the error objects the application keeps for them) are the same
+                    moved = "# moved\n\n" + vtext
+                    w2 = dict(witness, document=moved, **{"class": cls + "+same-operation-from-a-moved-document"})
+                    case.binding.calls = []
+                    ctx.evaluated()
+                    try:
+                        again = issue(config, case, moved, opname, vvars, root)
+                    except Exception as e:
+                        ctx.violation("entry-point-raises:%s" % type(e).__name__, w2, repr(e)[:300])
+                        continue
+                    ctx.count("requests_repeated_from_a_moved_document")
+                    resp2 = result_mon.check_response(ctx, again, moved, w2, expect_no_data=False)
+                    if resp2 is None:
+                        continue
+                    def norm(r, shift):
+                        out = []
+                        for e in r.get("errors", []):
+                            e = dict(e)
+                            e["locations"] = [(l.get("line", 0) - shift, l.get("column")) for l in e.get("locations") or []]
+                            out.append(json.dumps(e, sort_keys=True, default=repr))
+                        return sorted(out)
+                    if not nan and norm(resp, 0) != norm(resp2, 2):
+                        ctx.violation("history:errors-of-the-same-operation-from-a-moved-document-differ", w2,
+                                      "first %r / moved %r" % (norm(resp, 0)[:3], norm(resp2, 2)[:3]))
+                    earlier.append((again, json.dumps(resp2, sort_keys=True, default=repr), w2))
+        for result, first, w in earlier:
+            ctx.evaluated()
+            ctx.count("earlier_results_rendered_again")
+            try:
+                now = json.dumps(result.response(), sort_keys=True, default=repr)
+            except Exception as e:
+                ctx.violation("history:earlier-result-no-longer-renders:%s" % type(e).__name__, w, repr(e)[:200])
+                break
+            if now != first:
+                ctx.violation("history:earlier-response-changed-after-later-requests", w, "first %s / now %s" % (first[:400], now[:400]))
+                break
     ctx.require("stage:syntax", 20)
     ctx.require("stage:validation", 20)
     ctx.require("stage:variables", 5)
